@@ -11,52 +11,28 @@ mod c03pk {
     const MARKERS: usize = 4; // bind markers in the statement
     const MAXLEN: usize = 2; // bytes per bound value
 
-    /// Statement with 4 bind markers (blob columns), `npk` of which are partition-key columns placed at ANY
-    /// strictly increasing marker positions with ANY partition-key order (`sequence` = a permutation), as
-    /// produced by `deser_prepared_metadata` (which sorts pk_indexes by marker index). Bound values: every marker
-    /// gets 0..=2 arbitrary bytes. The stream written for hashing must be: the single key's bytes, or for a
-    /// composite key  be16(len) ++ bytes ++ 0x00  per component in PARTITION-KEY order.
-    fn check_layout<const NPK: usize>() {
-        // bound values
+    /// Statement with 4 bind markers (blob columns). The partition-key columns sit at the given markers, in the given
+    /// partition-key order (`marker_of_seq[s]` = marker of key component s); `pk_indexes` is sorted by marker index, as
+    /// `deser_prepared_metadata` guarantees. Bound values: marker m gets `lens[m]` arbitrary bytes. The stream written for
+    /// hashing must be: the single key's bytes, or for a composite key  be16(len) ++ bytes ++ 0x00  per component in
+    /// PARTITION-KEY order. Placement and lengths are concrete (enumerated by the harnesses), bytes symbolic: buffers of
+    /// symbolic length are out of CBMC's reach here (> 6 GB per case measured).
+    fn case(marker_of_seq: &[u16], lens: [usize; MARKERS]) {
+        let npk = marker_of_seq.len();
         let vals: [[u8; MAXLEN]; MARKERS] = kani::any();
-        let mut lens = [0usize; MARKERS];
         let mut sv = SerializedValues::new();
-        // (values containing ColumnType are never dropped: its recursive drop glue is what CBMC spends its time on)
         let typ = std::mem::ManuallyDrop::new(ColumnType::Native(NativeType::Blob));
         let typ: &ColumnType = &typ;
         let mut m = 0;
         while m < MARKERS {
-            let l: usize = kani::any();
-            kani::assume(l <= MAXLEN);
-            lens[m] = l;
-            assert!(std::mem::ManuallyDrop::new(sv.add_value(&&vals[m][..l], typ)).is_ok());
+            assert!(std::mem::ManuallyDrop::new(sv.add_value(&&vals[m][..lens[m]], typ)).is_ok());
             m += 1;
         }
-        // partition key columns: marker index of key component with sequence s
-        let mut marker_of_seq = [0u16; NPK];
-        let mut s = 0;
-        while s < NPK {
-            let idx: u16 = kani::any();
-            kani::assume((idx as usize) < MARKERS);
-            marker_of_seq[s] = idx;
-            s += 1;
-        }
-        // distinct markers
-        let mut a = 0;
-        while a < NPK {
-            let mut b = a + 1;
-            while b < NPK {
-                kani::assume(marker_of_seq[a] != marker_of_seq[b]);
-                b += 1;
-            }
-            a += 1;
-        }
-        // pk_indexes sorted by marker index (what deser_prepared_metadata guarantees)
         let mut pk_indexes: Vec<PartitionKeyIndex> = Vec::new();
         let mut idx = 0u16;
         while (idx as usize) < MARKERS {
             let mut s = 0;
-            while s < NPK {
+            while s < npk {
                 if marker_of_seq[s] == idx {
                     pk_indexes.push(PartitionKeyIndex { index: idx, sequence: s as u16 });
                 }
@@ -71,21 +47,18 @@ mod c03pk {
         ];
         let meta = std::mem::ManuallyDrop::new(PreparedMetadata { flags: 0, col_count: MARKERS, pk_indexes, col_specs });
         let meta: &PreparedMetadata = &meta;
-
         let pk = std::mem::ManuallyDrop::new(PartitionKey::new(meta, &sv));
         let pk = match &*pk { Ok(p) => p, Err(_) => { assert!(false, "key extraction succeeds"); return; } };
         let mut stream: Vec<u8> = Vec::new();
         let w = std::mem::ManuallyDrop::new(pk.write_encoded_partition_key(&mut |chunk: &[u8]| stream.extend_from_slice(chunk)));
         assert!(w.is_ok());
-
-        // spec
         let mut expect: Vec<u8> = Vec::new();
-        if NPK == 1 {
+        if npk == 1 {
             let mk = marker_of_seq[0] as usize;
             expect.extend_from_slice(&vals[mk][..lens[mk]]);
         } else {
             let mut s = 0;
-            while s < NPK {
+            while s < npk {
                 let mk = marker_of_seq[s] as usize;
                 expect.push(0);
                 expect.push(lens[mk] as u8);
@@ -97,21 +70,24 @@ mod c03pk {
         assert!(stream == expect, "hashed stream = key components in partition-key order, CQL composite layout");
     }
 
-    #[kani::proof]
-    #[kani::unwind(8)]
-    #[kani::stub(std::rt::thread_cleanup, noop)]
-    #[kani::stub(alloc::fmt::format, empty_string)]
-    fn c03_pk_layout_single() { check_layout::<1>(); }
-
-    #[kani::proof]
-    #[kani::unwind(8)]
-    #[kani::stub(std::rt::thread_cleanup, noop)]
-    #[kani::stub(alloc::fmt::format, empty_string)]
-    fn c03_pk_layout_two() { check_layout::<2>(); }
-
-    #[kani::proof]
-    #[kani::unwind(8)]
-    #[kani::stub(std::rt::thread_cleanup, noop)]
-    #[kani::stub(alloc::fmt::format, empty_string)]
-    fn c03_pk_layout_three() { check_layout::<3>(); }
+    macro_rules! pk_case {
+        ($name:ident, [$($m:expr),*], $lens:expr) => {
+            #[kani::proof]
+            #[kani::unwind(20)]
+            #[kani::stub(std::rt::thread_cleanup, noop)]
+            #[kani::stub(alloc::fmt::format, empty_string)]
+            fn $name() { case(&[$($m),*], $lens); }
+        };
+    }
+    // single key column at the first / last marker
+    pk_case!(c03_pk_single_first, [0], [2, 1, 1, 1]);
+    pk_case!(c03_pk_single_last, [3], [1, 1, 1, 2]);
+    // two key columns: in marker order, and swapped (bind markers in the opposite order of the key)
+    pk_case!(c03_pk_two_in_order, [0, 2], [1, 2, 2, 0]);
+    pk_case!(c03_pk_two_swapped, [3, 1], [2, 1, 2, 1]);
+    // three key columns: rotated and fully reversed marker order, one non-key marker interleaved
+    pk_case!(c03_pk_three_rotated, [2, 0, 3], [1, 2, 2, 1]);
+    pk_case!(c03_pk_three_reversed, [3, 2, 0], [2, 1, 0, 1]);
+    // four key columns, reversed
+    pk_case!(c03_pk_four_reversed, [3, 2, 1, 0], [1, 1, 1, 1]);
 }
